@@ -61,7 +61,7 @@ def words(ident):
         if not p:
             continue
         # split at lower->upper boundaries like convert_case does
-        parts += re.findall(r'[A-Z]+(?![a-z])|[A-Z]?[a-z0-9]+|[A-Z]+', p) or [p]
+        parts += re.findall(r'[0-9]+|[A-Z]+(?![a-z])|[A-Z]?[a-z]+|[A-Z]+', p) or [p]
     return parts
 
 
@@ -70,7 +70,11 @@ def pascal(ident):
 
 
 def upper_snake(ident):
-    return '_'.join(w.upper() for w in words(ident))
+    """the macro applies convert_case's UpperSnake to the (Pascal case) variant identifier; word boundaries:
+    lower->upper, letter<->digit, and the last capital of an acronym followed by a lower-case letter"""
+    v = pascal(ident)
+    ws = re.findall(r'[0-9]+|[A-Z]+(?![a-z])|[A-Z]?[a-z]+', v)
+    return '_'.join(w.upper() for w in ws)
 
 
 def split_args(toks):
